@@ -11,7 +11,7 @@ from props.C01 import RS, WITHCFG
 import facts
 
 META = {
-    "explanation_more": "Also (round 4): an acknowledged write is on disk — the completion notice is built only behind the file write's own Ok (a result that is also assigned a constant Ok on another path decides nothing) and always registers the key (C02.persist.*); with_config removes nothing from the recovered index or the directory (C02.rebuild.keeps) and hands the scan and the store derive_aes256gcm_siv_from_seed(seed) unmodified (C02.details.stable).",
+    "explanation_more": "Also (round 4): an acknowledged write is on disk — the completion notice is built only behind the file write's own Ok (a result that is also assigned a constant Ok on another path decides nothing) and always registers the key (C02.persist.*); with_config removes nothing from the recovered index or the directory (C02.rebuild.keeps) and hands the scan and the store derive_aes256gcm_siv_from_seed(seed) unmodified (C02.details.stable). Also (round 5): write and delete jobs of a record file go through one dispatch primitive (C02.disk.jobs.same-queue).",
     "explanation": "Decides: (1) the shipped configuration: ant-node's default features contain encrypt-records, which forwards to "
                    "ant-networking/encrypt-records, the analysed ant_networking build has cfg(feature=\"encrypt-records\"), and with the "
                    "literal cfg! folded the un-authenticated `return Some(record)` of get_record_from_bytes is unreachable; (2) "
